@@ -25,6 +25,8 @@ func runC07(c *fw.Ctx) {
 	r71(c)
 	r72(c)
 	r73(c)
+	r74(c)
+	r75(c)
 }
 
 type mirrorCmp struct {
